@@ -22,6 +22,7 @@
 #include <algorithm>
 #include <iterator>
 #include <string>
+#include <sys/time.h>
 #include <unistd.h>
 #include <utility>
 #include <vector>
